@@ -685,3 +685,13 @@ silent("C20", "codes-filtered", [E(VEC, "HistogramVectorizer._vector_transform",
                                    "        bin_codes = pd.cut(np.asarray(vector), self.bin_intervals_).codes\n        bin_codes = bin_codes[bin_codes >= 0]\n        counts = np.zeros(len(self.bin_intervals_))\n        np.add.at(counts, bin_codes, 1)\n        return counts"),
                                  E(VEC, "HistogramVectorizer.transform", "self._vector_transform(seq).values", "self._vector_transform(seq)")],
        "the same speed-up with the no-bin code removed")
+
+# --- C03: n-gram window anchors (seeded r3_C03)
+_NG_LOOP = "        for w_i in range(ngram_size - 1, len(seq)):\n            ngram = array_to_tuple(seq[w_i - ngram_size + 1 : w_i + 1])\n"
+_NG_LOOP_S = "        for s_i in range(len(seq) - ngram_size + 1):\n            ngram = array_to_tuple(seq[s_i : s_i + ngram_size])\n"
+_NG_ANCHOR = "                        w_i - window_reversal_const[i] * (ngram_size - 1),\n"
+for _fn in ("numba_build_skip_grams",):
+    fire("C03", "ngram-anchor-inside-the-gram", "R3.10", [E(NGC, _fn, _NG_LOOP, _NG_LOOP_S), E(NGC, _fn, _NG_ANCHOR, "                        s_i + ngram_size - 1 - window_reversal_const[i],\n")],
+         "seeded r3_C03: right for bigrams only", allow_error=True)
+    silent("C03", "ngram-loop-over-start-index", [E(NGC, _fn, _NG_LOOP, _NG_LOOP_S), E(NGC, _fn, _NG_ANCHOR, "                        s_i + (1 - window_reversal_const[i]) * (ngram_size - 1),\n")],
+           "the same re-parametrisation done right")
